@@ -1,6 +1,7 @@
 package vf
 
 import (
+	"regexp"
 	"bytes"
 	"crypto/sha256"
 	"encoding/json"
@@ -155,7 +156,13 @@ func c14Task(raw json.RawMessage) TaskResult {
 func init() { RegisterTask("c14", c14Task) }
 
 func c14Run(a c14Arg, ops []Op, set []int, final *Ledger) string {
-	w, err := buildHistory(a.T, ops)
+	return c14RunWith(func() (*World, error) { return buildHistory(a.T, ops) }, a.Workers, a.Relaxed, set, final)
+}
+
+// c14RunWith: build the pending state, inject the fault set, commit / retry until success, judge.
+func c14RunWith(build func() (*World, error), workers int, relaxed bool, set []int, final *Ledger) string {
+	a := c14Arg{Workers: workers, Relaxed: relaxed}
+	w, err := build()
 	if err != nil {
 		return "harness: " + err.Error()
 	}
@@ -204,7 +211,13 @@ func c14Run(a c14Arg, ops []Op, set []int, final *Ledger) string {
 		}
 		// every change not yet durably written is still pending
 		_, now := atree.VerifStorageLayers(w.St)
-		for id, s := range pre {
+		var preIDs []atree.SlabID
+		for id := range pre {
+			preIDs = append(preIDs, id)
+		}
+		SortIDs(preIDs)
+		for _, id := range preIDs {
+			s := pre[id]
 			if id.HasTempAddress() {
 				if cur, ok := now[id]; !ok || cur != s {
 					return fmt.Sprintf("attempt %d: temporary-address slab %s left the write set", attempt, id)
@@ -297,8 +310,112 @@ func init() {
 			}
 		}
 		r.RunTaskGroup("fault sets x histories x commits x workers", "c14", args)
+		// every pending write set reachable inside bounded universes (not only the hand-written corpus): the
+		// fault enumeration runs as a state oracle on every transition of an explicit-state search whose
+		// alphabet includes commits (so write sets over committed, cached and cold states are all reached)
+		or := []string{"faults", "ev:commit1"}
+		var specs []Spec
+		if !r.Thorough() {
+			specs = []Spec{
+				{Name: "faults-mixed-T256", Kind: "mixed", T: 256, L: 3, Keys: 2, Classes: []string{"t", "limA+", "A"}, Oracles: or, Depth: 4, Extra: map[string]int{"temp": 1, "k": 2}},
+				{Name: "faults-split-T256", Kind: "mixed", T: 256, L: 5, Keys: 4, Classes: []string{"limM", "t"}, Oracles: or, Depth: 5, Extra: map[string]int{"k": 1}},
+			}
+			for _, sc := range []string{"map-grow-lim", "arr-append-lim", "arr-mixed"} {
+				specs = append(specs, TrajSpecs(r.ID, sc, 20, 4, 17, 4, 2, 256, []string{"t", "limM"}, append([]string{"k1"}, or...))...)
+			}
+			specs = append(specs, TrajSpecs(r.ID, "arr-mixed", 60, 30, 61, 30, 1, 256, []string{"t"}, append([]string{"k1"}, or...))...)
+			specs = append(specs, TrajSpecs(r.ID, "map-grow-desc", 90, 45, 92, 45, 1, 256, []string{"limM"}, append([]string{"k1"}, or...))...)
+		} else {
+			specs = []Spec{
+				{Name: "faults-mixed-T256", Kind: "mixed", T: 256, L: 3, Keys: 2, Classes: []string{"t", "limA+", "A", "s:M:t"}, Oracles: or, Depth: 5, Extra: map[string]int{"temp": 1, "k": 2}},
+				{Name: "faults-split-T256", Kind: "mixed", T: 256, L: 6, Keys: 5, Classes: []string{"limM", "t"}, Oracles: or, Depth: 7, Extra: map[string]int{"k": 2}},
+				{Name: "faults-mixed-T1024", Kind: "mixed", T: 1024, L: 3, Keys: 2, Classes: []string{"t", "limA+", "A"}, Oracles: or, Depth: 4, Extra: map[string]int{"temp": 1, "k": 2}},
+			}
+			for _, sc := range []string{"map-grow-lim", "map-grow-desc", "arr-append-lim", "arr-mixed", "arr-drain-mid", "map-drain-front"} {
+				specs = append(specs, TrajSpecs(r.ID, sc, 100, 5, 101, 6, 2, 256, []string{"t", "limM"}, append([]string{"k1"}, or...))...)
+			}
+		}
+		evalsBefore := r.Evals
+		r.ExploreSpecs(specs)
+		r.Evals += r.Stats.Inner
+		r.Extra["fault_sets_injected_in_explored_states"] = r.Stats.Inner
+		r.Extra["fault_sets_in_distinct_new_states"] = r.Stats.InnerNew
+		r.Extra["fault_sets_in_corpus_histories"] = evalsBefore
+		r.Extra["explored_states"] = r.Stats.States
+		r.Extra["explored_transitions"] = r.Stats.Transitions
 		r.Level = "fault_enumeration"
 	}})
 }
+
+// OFaults is the fault enumeration as a state oracle: at the state reached by w's history (any space
+// that can rebuild its history on a fresh world), for both commits and 1-2 workers, every set of up to k
+// failing ledger mutations of the commit that would happen now is injected (same judgement as c14Run).
+func OFaults(w *World, k int) error {
+	if w.TwinBase == nil {
+		return fmt.Errorf("harness: space does not support the fault oracle")
+	}
+	hist := append([]Op{}, w.History...)
+	build := func() (*World, error) {
+		x, err := w.TwinBase()
+		if err != nil {
+			return nil, err
+		}
+		for _, o := range hist {
+			if err := x.Apply(o); err != nil {
+				return nil, fmt.Errorf("rebuilding the history for fault injection fails at %s: %w", o, err)
+			}
+		}
+		return x, nil
+	}
+	for _, relaxed := range []bool{false, true} {
+		for _, wk := range []int{1, 2} {
+			if relaxed && wk > 1 {
+				// with several workers the order in which the order-relaxed commit issues its ledger calls
+				// depends on real goroutine scheduling in this (sequential) build: the corpus tasks above run
+				// those with a schedule-independent oracle, C16/C04 enumerate the schedules; here one worker
+				// keeps every execution replayable (map iteration order is canonical in this build)
+				continue
+			}
+			tw, err := build()
+			if err != nil {
+				return fmt.Errorf("harness: %w", err)
+			}
+			tw.Ledger.MutCount = 0
+			if err := tw.commitRaw(wk, relaxed); err != nil {
+				return violf("fault-free commit (relaxed=%v, workers=%d) failed: %v", relaxed, wk, err)
+			}
+			M := tw.Ledger.MutCount
+			if M == 0 {
+				continue
+			}
+			horizon := M + 1
+			var sets [][]int
+			for i := 0; i < horizon; i++ {
+				sets = append(sets, []int{i})
+			}
+			if k >= 2 {
+				for i := 0; i < horizon; i++ {
+					for j := i + 1; j < horizon+1; j++ {
+						sets = append(sets, []int{i, j})
+					}
+				}
+			}
+			for _, set := range sets {
+				w.InnerEvals++
+				if msg := c14RunWith(build, wk, relaxed, set, tw.Ledger); msg != "" {
+					if relaxed {
+						// which slab the k-th ledger call of the order-relaxed commit hits depends on Go's map
+						// iteration order: keep the message (compared across replays) free of slab identifiers
+						msg = slabIDRe.ReplaceAllString(msg, "<slab>")
+					}
+					return violf("commit relaxed=%v workers=%d with failing ledger mutations %v (of %d): %s", relaxed, wk, set, M, msg)
+				}
+			}
+		}
+	}
+	return nil
+}
+
+var slabIDRe = regexp.MustCompile(`0x[0-9a-f]+\.[0-9]+`)
 
 var _ = sort.Ints
